@@ -4,6 +4,7 @@ import (
 	"context"
 	"errors"
 	"fmt"
+	"math"
 	"math/rand"
 	"os"
 	"path/filepath"
@@ -151,7 +152,7 @@ func (tc *timeoutCounter) IncrementTimeoutCount(prrs int64, miners *node.Pool) {
 	tc.resetVotes()
 
 	// increase if has not increased
-	if tc.count == from {
+	if tc.count == from && tc.count < math.MaxInt {
 		tc.count++
 	}
 	tc.checkCap()
@@ -170,6 +171,9 @@ func (tc *timeoutCounter) SetTimeoutCount(count int) (set bool) {
 	tc.mutex.Lock()
 	defer tc.mutex.Unlock()
 
+	if timeoutCap := viper.GetInt("server_chain.round_timeouts.timeout_cap"); timeoutCap > 0 && count > timeoutCap {
+		count = timeoutCap
+	}
 	if count <= tc.count {
 		return // false (not set)
 	}
